@@ -20,6 +20,7 @@ pub assume_specification [VCell::type_text] (v: &VCell) -> (r: &'static str);
 """,
     'fns': {
         'impl VCell::undefined': {'props': [], 'ensures': ['r == VCell::Undefined']},
+        'impl VCell::void': {'props': [], 'ensures': ['r == VCell::Void']},
         'impl VCell::ptr': {'props': [], 'ensures': ['r == VCell::Ptr(val)']},
         'impl VCell::pair': {'props': [], 'ensures': ['r == VCell::Pair(car, cdr)']},
         'impl VCell::is_boolean': {'props': [], 'ensures': ['r == (*self is Bool)']},
